@@ -236,6 +236,9 @@ func cmdCheck(args []string) int {
 		if *only != "" && !strings.Contains(h.Func, *only) {
 			continue
 		}
+		if h.ThoroughOnly && *tier != "thorough" {
+			continue
+		}
 		spec := HarnessSpec{Pkg: h.Pkg, Func: h.Func, Params: map[string]int{}}
 		for k, v := range h.Quick {
 			spec.Params[k] = v
@@ -387,7 +390,7 @@ func cmdCheck(args []string) int {
 	}
 
 	// 5. evidence
-	var paths, obligations, discharged, undis, unproved, unwind, engErr, queries, reached, pruned, crossN, crossDis, crossUnk int
+	var paths, obligations, discharged, undis, unproved, unwind, engErr, queries, reached, pruned, crossN, crossBrN, crossDis, crossUnk int
 	var steps int64
 	var solverS float64
 	funcs := map[string]int64{}
@@ -408,6 +411,7 @@ func cmdCheck(args []string) int {
 		queries += r.Queries
 		reached += s.ReachedEnd
 		crossN += s.CrossChecked
+		crossBrN += s.CrossPruned
 		crossDis += s.CrossDisagree
 		crossUnk += s.CrossUnknown
 		solverS += r.SolverTime
@@ -440,7 +444,7 @@ func cmdCheck(args []string) int {
 		"obligations": obligations, "discharged": discharged, "undischarged": undis, "unproved_paths": unproved,
 		"unwinding_failures": unwind, "engine_errors": engErr, "spurious_models": spurious, "native_mismatches": mismatches, "mismatch_samples": mismatchSamples,
 		"solver_queries": queries, "solver_time_s": round1(solverS), "solver": solverKind() + " (-in, incremental QF_BV over push/pop; z3-new = z3 5.1.0, z3 = 4.8.12)",
-		"cross_solver":                   map[string]interface{}{"solvers": cfg.Cross, "assertion_vcs_rechecked": crossN, "disagreements": crossDis, "unknown": crossUnk},
+		"cross_solver":                   map[string]interface{}{"solvers": cfg.Cross, "assertion_vcs_rechecked": crossN, "pruned_branch_sides_rechecked": crossBrN, "disagreements": crossDis, "unknown": crossUnk},
 		"paths_reaching_final_assertion": reached, "paths_pruned_infeasible": pruned,
 		"functions_encoded": topFuncs(funcs, 0), "harnesses": harnessRows, "known_findings_hit": knownHit,
 		"exhaustive":                   complete && nviol == 0,
